@@ -35,13 +35,17 @@ Definition onat_eqb (a b : option nat) : bool :=
 Definition ts_eqb (s r : ts) : bool :=
   onat_eqb (hid s) (hid r) && Nat.eqb (tb s) (tb r) && Nat.eqb (te s) (te r).
 
+(* const WHITESPACE_LIMIT: the longest whitespace gap Precedes/Succeeds allow *)
+Definition WHITESPACE_LIMIT := 10.
+
 Section WithText.
   (* whitespace flag of every codepoint of the resource text *)
   Variable ws : list bool.
 
-  (* resource.text_by_offset(Offset::simple(b,e)) is Ok and all whitespace *)
+  (* the gap is at most WHITESPACE_LIMIT long, resource.text_by_offset(Offset::simple(b,e)) is Ok
+     and all whitespace *)
   Definition gap_ws (b e : nat) : bool :=
-    if (b <=? e) && (e <=? length ws)
+    if (b <=? e) && (e <=? length ws) && (e - b <=? WHITESPACE_LIMIT)
     then forallb (fun x => x) (firstn (e - b) (skipn b ws))
     else false.
 
